@@ -418,6 +418,16 @@ func parseString(p *peeker) (node, hcl.Diagnostics) {
 			errEndPos.Byte++
 			errEndPos.Column++
 
+			if errEndPos.Byte > tok.Range.End.Byte {
+				// The error is at the very end of the token (for example
+				// an unterminated string at the end of the input), so there
+				// is no following character to point at. Don't report a
+				// range that extends beyond the token and possibly beyond
+				// the end of the source buffer.
+				errPos = tok.Range.End
+				errEndPos = tok.Range.End
+			}
+
 			errRange = hcl.Range{
 				Filename: tok.Range.Filename,
 				Start:    errPos,
